@@ -8,7 +8,7 @@
 (* -- kept by every successful renamer call (a [rekey] of one non-directory key onto an absent     *)
 (* one); status 0 under stop means every backlog entry was renamed at its retry.                   *)
 From Coq Require Import Permutation.
-From Tempren Require Import Base.Str Py.PathLib Py.PathLibProofs FS.Model FS.Lemmas FS.WfCheck Pipe.Pipeline.
+From Tempren Require Import Base.Str Py.PathLib Py.PathLibProofs FS.Model FS.Lemmas FS.WfCheck Pipe.Pipeline Pipe.DestParent.
 Open Scope N_scope.
 
 (* ====================== model-style definitions (computable) ======================================= *)
@@ -703,6 +703,7 @@ Proof.
       apply ppath_eqb_spec in Eq. cbn [skipped]. unfold dst_key, src_key. f_equal.
       change (pp_parts (new_path f t) = pp_parts (pf_rel f)). rewrite Eq. reflexivity.
     + destruct (contained (c_var c) (w_fs w) f (new_path f t)) as [[|]|]; try (intros E; discriminate E).
+      destruct (dest_parent_test (c_var c) (w_fs w) f (new_path f t)) as [[|]|]; try (intros E; discriminate E).
       destruct (parents_contained (w_fs w) f (new_path f t)) as [[|]|]; try (intros E; discriminate E).
       destruct (source_contained (w_fs w) f) as [[|]|]; try (intros E; discriminate E).
       destruct (renamer c w (pf_dir f) (pf_rel f) (new_path f t) false) as [w1 [e1|]] eqn:R.
@@ -957,7 +958,7 @@ Proof.
         apply ppath_eqb_spec in X. congruence. }
       pose proof (dst_free_now D f t rest _ AF Hin I Hne) as Hfree.
       destruct AF as [AF1 AF2]. destruct (AF1 f t Hin Hne) as [_ Hlen].
-      destruct (containment_ok D f t rest _ Hin I Hfree Hlen) as [Ct [Pc Sc]]. rewrite Ct, Pc, Sc.
+      destruct (containment_ok D f t rest _ Hin I Hfree Hlen) as [Ct [Pc Sc]]. rewrite Ct, (dest_parent_test_with_name _ _ _ _ _ Hg' Sc), Pc, Sc.
       destruct (renamer_free D f t rest w Hin I Hfree) as [w1 R]. rewrite R.
       apply (IH w1 _ ((f, RText t) :: D)). apply (renamer_step D f t _ w w1 Hin I R).
 Qed.
